@@ -74,7 +74,7 @@ CFG = {
             "Bitvector::bin_op(Piece) as used by read",
         ],
         "bounds": "two segments of concrete lengths 2..8 bytes (per instantiation) with symbolic contents, symbolic 64-bit base addresses (disjoint, adjacency allowed, either order; base+len does not wrap), symbolic read/write flags, "
-                  "symbolic 64-bit query address; read sizes 1,2,4,8 in little and big endian; strings: ASCII bytes only (UTF-8 validity is not the subject); loop unwinding 10 with unwinding assertions on; "
+                  "symbolic 64-bit query address; read sizes 1, 2, 4 in little and big endian (8-byte reads only as stretch harnesses in the thorough tier: 9 GB and no result in 25 min); strings: ASCII bytes only (UTF-8 validity is not the subject); loop unwinding 10 with unwinding assertions on; "
                   "outside: more than two segments, segments longer than 8 bytes, ELF/PE parsing (goblin), non-ASCII strings",
         "oracle": "byte-array model of the property statement (src/c19.rs: seg_of + per-query expectations)",
     },
